@@ -5,13 +5,13 @@ Specs: MqttConnCap.tla, MqttConnCap_Gen.tla, MqttConnCap_Trace.tla.  Entry point
 from lib.vlib import jdump
 from props._mqtt import PKG, validate_traces, short
 
-MC = ("SPECIFICATION CSpec\nCONSTANTS\n  Cap = %d\n  Ids = {\"a\", \"b\", \"c\"}\n  ConnsC <- %s\n  IdOf <- %s\n  StaleTakeover = %s\n  LateRegister = %s\nVIEW cview\n"
-      "INVARIANTS CapHolds ReleaseReusable\nPROPERTIES NoAcceptAboveCap RefusedOnlyAtCap TakeoverKeepsCount\n")
-GEN = ("SPECIFICATION GSpec\nCONSTANTS\n  Cap = %d\n  Ids = {\"a\", \"b\", \"c\", \"d\", \"e\"}\n  ConnsC <- GenConns\n  IdOf <- GenId\n  StaleTakeover = FALSE\n  LateRegister = FALSE\n"
-       "  MaxStepsC = 12\n")
+MC = ("SPECIFICATION CSpec\nCONSTANTS\n  Cap = %d\n  Ids = {\"a\", \"b\", \"c\"}\n  ConnsC <- %s\n  IdOf <- %s\n  StaleTakeover = %s\n  LateRegister = %s\n  RemoveKeyed = %s\nVIEW cview\n"
+      "INVARIANTS CapHolds ReleaseReusable ConnectedWithinCap\nPROPERTIES NoAcceptAboveCap RefusedOnlyAtCap TakeoverKeepsCount\n")
+GEN = ("SPECIFICATION GSpec\nCONSTANTS\n  Cap = %d\n  Ids = {\"a\", \"b\", \"c\", \"d\", \"e\"}\n  ConnsC <- GenConns\n  IdOf <- GenId\n  StaleTakeover = FALSE\n  LateRegister = FALSE\n  RemoveKeyed = FALSE\n"
+       "  MaxStepsC = 12\n  Abandon = \"no\"\n")
 # schedules with attempts parked in the Connect pipeline (between the early check and the registration)
-GEN_PARK = ("SPECIFICATION PSpec\nCONSTANTS\n  Cap = %d\n  Ids = {\"a\", \"b\", \"c\"}\n  ConnsC <- ParkConns\n  IdOf <- ParkId\n  StaleTakeover = FALSE\n  LateRegister = FALSE\n"
-            "  MaxStepsC = 14\n")
+GEN_PARK = ("SPECIFICATION PSpec\nCONSTANTS\n  Cap = %d\n  Ids = {\"a\", \"b\", \"c\"}\n  ConnsC <- ParkConns\n  IdOf <- ParkId\n  StaleTakeover = FALSE\n  LateRegister = FALSE\n  RemoveKeyed = FALSE\n"
+            "  MaxStepsC = 14\n  Abandon = \"%s\"\n")
 TRACE_CFG = "SPECIFICATION TSpec\nCONSTRAINT HWM\nPOSTCONDITION Accepted\nINVARIANT CapHolds\n"
 
 
@@ -32,23 +32,32 @@ def run_mqtt(ctx):
                         "checkConnectPermission and the registration under the broker lock (no hook in /repo); a client that is slow to read its "
                         "CONNACK is connected over an unbuffered in-memory connection (net.Pipe handed to Broker.handleConn) whose broker-side "
                         "writes the harness holds; in the concurrent runs every other client reads its CONNACK after a random delay (0-3ms) "
-                        "over such a connection"]
+                        "over such a connection; a slow reader may give up (close its connection) while the broker is blocked writing its CONNACK: "
+                        "that write then fails - the slot it was registered with goes back if it still has it, and nothing changes if its id was "
+                        "taken over meanwhile (schedule families 'owner' / 'superseded', told apart conservatively by the generator)"]
     if _ph(ctx, "mqtt-mc"):
         for cap, conns, idof in ((1, "MCConns", "MCId2"), (2, "MCConns5", "MCId5")) if ctx.quick else ((1, "MCConns5", "MCId5"), (2, "MCConns5", "MCId5"), (3, "MCConns5", "MCId5")):
-            r = ctx.tlc_mc("MqttConnCap", MC % (cap, conns, idof, "FALSE", "FALSE"), label="MQTT cap %d, early check + locked register + remove, all interleavings" % cap, timeout=600)
+            r = ctx.tlc_mc("MqttConnCap", MC % (cap, conns, idof, "FALSE", "FALSE", "FALSE"), label="MQTT cap %d, early check + locked register + remove, all interleavings" % cap, timeout=600)
             ctx.log("MQTT connection-cap model (cap %d): %d distinct states" % (cap, r.distinct))
         # a takeover decided from the lookup of the early check (before the Connect pipeline ran) must be refuted
-        r = ctx.tlc_mc("MqttConnCap", MC % (1, "MCConns", "MCId2", "TRUE", "FALSE"), expect_ok=False, count=False,
+        r = ctx.tlc_mc("MqttConnCap", MC % (1, "MCConns", "MCId2", "TRUE", "FALSE", "FALSE"), expect_ok=False, count=False,
                        label="MQTT cap: takeover decided at the early check (must be refuted)", timeout=600)
         if r.ok:
             ctx.inconclusive("the MQTT connection-cap model does not refute a takeover decided from a stale lookup")
         ctx.log("MQTT connection-cap model with a stale takeover decision refuted: %s" % r.violated)
         # a registration that follows the CONNACK write (check and registration in two critical sections) must be refuted
-        r = ctx.tlc_mc("MqttConnCap", MC % (1, "MCConns", "MCId2", "FALSE", "TRUE"), expect_ok=False, count=False,
+        r = ctx.tlc_mc("MqttConnCap", MC % (1, "MCConns", "MCId2", "FALSE", "TRUE", "FALSE"), expect_ok=False, count=False,
                        label="MQTT cap: registration after the CONNACK was written (must be refuted)", timeout=600)
         if r.ok:
             ctx.inconclusive("the MQTT connection-cap model does not refute a registration that is separated from the decisive check")
         ctx.log("MQTT connection-cap model with check and registration in separate sections refuted: %s" % r.violated)
+        # a clean-up that deletes the entry of the client id, whoever holds it (after a failed CONNACK write, say), must be refuted:
+        # after a takeover it forgets the slot of the successor, which stays connected
+        r = ctx.tlc_mc("MqttConnCap", MC % (1, "MCConns", "MCId2", "FALSE", "FALSE", "TRUE"), expect_ok=False, count=False,
+                       label="MQTT cap: removal keyed by the client id without identity check (must be refuted)", timeout=600)
+        if r.ok:
+            ctx.inconclusive("the MQTT connection-cap model does not refute a removal that is keyed by the client id only")
+        ctx.log("MQTT connection-cap model with a removal keyed by client id refuted: %s" % r.violated)
     if _ph(ctx, "mqtt-mbt"):
         _mbt(ctx)
     if _ph(ctx, "mqtt-gated"):
@@ -85,10 +94,34 @@ def _mbt(ctx):
     ctx.sample({"kind": "mqtt-cap-scenario", "steps": [short(s, 160) for s in behs[0][:6]]})
 
 
+def _sample_dir(seg):
+    """is the rejected sample above or below the number of client ids with an accepted, not yet finished connection (from the log)?"""
+    ids, up = {}, {}
+    for e in seg[:-1]:
+        if e["ev"] == "inv":
+            ids[e["c"]] = e["id"]
+        elif e["ev"] == "ret" and e["code"] == 0:
+            up[e["c"]] = ids.get(e["c"])
+        elif e["ev"] == "gone":
+            up.pop(e["c"], None)
+    n = len(set(up.values()))
+    return "above" if seg[-1]["n"] > n else "below" if seg[-1]["n"] < n else "equal"
+
+
 def _gated(ctx):
+    _gated_run(ctx, "no")
+    # a slow CONNACK reader that gives up (the CONNACK write fails) after its id was taken over
+    _gated_run(ctx, "superseded")
+    # ... and while it may still own its id (kept apart: an open finding ends the schedules it hits)
+    _gated_run(ctx, "owner")
+
+
+def _gated_run(ctx, abandon):
     behs = []
-    for cap in (1, 2):
-        behs += ctx.tlc_simulate("MqttConnCap_Gen", GEN_PARK % cap, num=60 if ctx.quick else 600, depth=15, timeout=600)
+    for cap in (1, 2) if abandon == "no" else (2, 3) if abandon == "superseded" else (1, 2):
+        behs += ctx.tlc_simulate("MqttConnCap_Gen", GEN_PARK % (cap, abandon), num=(60 if ctx.quick else 600) // (1 if abandon == "no" else 2), depth=15, timeout=600)
+    if abandon != "no":
+        behs = [b for b in behs if any(s_.get("a") == "abandon" for s_ in b)]
     seen, uniq = set(), []
     for b in behs:
         key = jdump(b)
@@ -96,11 +129,11 @@ def _gated(ctx):
             seen.add(key)
             uniq.append(b)
     behs = uniq
-    inp = ctx.path("c17m_park.ndjson")
+    inp = ctx.path("c17m_park_%s.ndjson" % abandon)
     with open(inp, "w") as fh:
         for b in behs:
             fh.write(jdump(b) + "\n")
-    tp = ctx.path("c17m_gated.ndjson")
+    tp = ctx.path("c17m_gated_%s.ndjson" % abandon)
     rc, out = ctx.go_test(PKG, "^TestVerifC17MqttGated$", env={"VERIF_IN": inp, "VERIF_OUT": tp}, timeout=1500)
     ev = ctx.read_ndjson(tp)
     if rc != 0 or not ev:
@@ -155,7 +188,21 @@ def _gated(ctx):
                     acking.add(s_["c"])
             elif s_["a"] == "take":
                 acking.discard(s_["c"])
-    if (across < 10 or refused < 5 or sameid < 5 or held_ack < 10) and not ctx.violations:
+    abandoned = sum(1 for e in ev if e["ev"] == "abandon")
+    if abandon != "no":
+        # vacuity: CONNACK writes that failed; for "superseded": with a further attempt started afterwards
+        later = 0
+        for b in behs:
+            seen = False
+            for s_ in b[1:]:
+                seen = seen or s_["a"] == "abandon"
+                if seen and s_["a"] == "start":
+                    later += 1
+                    break
+        if (abandoned < 5 or later < 3) and not ctx.violations:
+            ctx.inconclusive("C17 MQTT gated schedules (%s) are vacuous: %d failed CONNACK writes, %d schedules with an attempt after one" % (abandon, abandoned, later))
+        ctx.notes.append("MQTT cap, gated schedules (%s): %d CONNACK writes failed (client gone), %d schedules with a further attempt afterwards" % (abandon, abandoned, later))
+    elif (across < 10 or refused < 5 or sameid < 5 or held_ack < 10) and not ctx.violations:
         ctx.inconclusive("C17 MQTT gated schedules are vacuous: %d attempts parked across a change of the population, %d refusals, %d attempts "
                          "with an id that was connected, %d attempts decided while another client's CONNACK was pending" % (across, refused, sameid, held_ack))
 
@@ -164,13 +211,22 @@ def _gated(ctx):
         sig = {"kind": "mqtt-gated", "ev": last.get("ev"), "inv": tr.inv or "rejected"}
         if last.get("ev") == "ret":
             sig["code"] = last.get("code")
+        if any(e["ev"] == "abandon" for e in seg):
+            sig["connack_write_failed"] = abandon
+            # the connection whose CONNACK could not be written is gone, and the broker still has it registered under its client id
+            sig["stale_entry"] = any(e["ev"] == "gone" and e.get("stale") for e in seg)
+        if last.get("ev") == "sample":
+            sig["count"] = _sample_dir(seg)
         ctx.violation(sig, "schedule with connection attempts parked in the Connect pipeline (between the early check and the registration) "
                       "on the real broker has no linearisation the connection-cap contract allows: first unexplained event %s%s" % (
                           short(last, 200), ", invariant %s" % tr.inv if tr.inv else ""), seg[-60:])
 
-    ok = validate_traces(ctx, "MqttConnCap_Trace", TRACE_CFG, ev, "c17m_gated", on_reject, timeout=1500)
+    ok = validate_traces(ctx, "MqttConnCap_Trace", TRACE_CFG, ev, "c17m_gated_" + abandon, on_reject, timeout=1500, max_rounds=6 if abandon == "no" else 12)
     ctx.traces(ok)
-    ctx.nontrivial("mqtt-cap-gated-%d" % ok)
+    ctx.nontrivial("mqtt-cap-gated-%s-%d" % (abandon, ok))
+    if abandon != "no":
+        ctx.log("MQTT cap: %d/%d gated schedules with failing CONNACK writes (%s) linearised by TLC" % (ok, len(behs), abandon))
+        return
     ctx.notes.append("MQTT cap, gated schedules: %d attempts parked across a change of the population, %d refusals, %d attempts with a connected id, "
                      "%d attempts decided while the CONNACK of a slow reader was pending" % (across, refused, sameid, held_ack))
     ctx.log("MQTT cap: %d/%d gated schedules linearised by TLC (%d attempts, %d parked across a change of the population, %d refused)" % (
